@@ -54,7 +54,7 @@ def run_pool(ctx, exe, cases, batch, timeout):
 def modelled(ops):
     """the server-death direction is judged by the property oracle alone (the client state machine of
     Model/IpcLifeClient.lean is tied to the code by the theorems' hypotheses, not by this differential)"""
-    return bool(ops) and not ops[0].startswith(("sdry", "sdeath"))
+    return bool(ops) and not ops[0].startswith(("sdry", "sdeath", "sidle"))
 
 
 def run_cases(ctx, exe, cases, stream, batch=12, timeout=60):
@@ -203,7 +203,12 @@ def run(ctx):
                 "the server kills it before each of the server's own calls while handling it; a raw client dies "
                 "after each prefix 0..24 of the handshake record; in the other direction the forked server dies "
                 "before / at each of its calls while the client runs send, sendv_recv, recv, event_recv with "
-                "timeouts 0, finite, -1 (virtual clock), then the later calls, then qb_ipcc_disconnect. "
+                "timeouts 0, finite, -1 (virtual clock), then the later calls, then qb_ipcc_disconnect (and the same "
+                "with qb_ipcc_disconnect as the very next call); the forked server is SIGKILLed while the client is "
+                "idle (queues empty / events, a response, a request queued), reaped before the client's next call, "
+                "during the 1st..4th pause of qb_ipcc_disconnect, or not at all, and the client's next call is "
+                "qb_ipcc_disconnect (every combination) or one of is_connected, send, sendv_recv, event_recv, recv "
+                "followed by qb_ipcc_disconnect. "
                 "Every case is non-trivial (it contains a death); distinct by its op line")
     ctx.trusted = ["Lean 4.33 kernel; axioms propext, Classical.choice, Quot.sound",
                    "harness/ipc/ipc_crash.c + cr_interpose.h (libc interposition: crash points, schedule control, "
@@ -216,7 +221,9 @@ def run(ctx):
                        "closed unix stream socket sees POLLHUP / EOF / EPIPE at once; a send to a dead datagram peer fails",
                        "real-time latency and SIGBUS on truncated mappings are outside the model (clock of the "
                        "server-death cases is virtual: time passes only in blocking calls once the server is dead)",
-                       "a dead server has been reaped (kill(pid,0) = ESRCH) when the client disconnects",
+                       "a dead server is reaped (kill(pid,0) = ESRCH) before the fourth probe of qb_ipcc_shm_disconnect "
+                       "(cases in which it is reaped later or never are run too; there only the client's own "
+                       "descriptors and mappings and the duration of the call are judged)",
                        "well-behaved server application: connection_closed returns 0, no extra references "
                        "(the other cases are C04's)"]
     vlib.lean_prepare(ctx)
@@ -236,7 +243,19 @@ def run(ctx):
         if ctx.violations:
             return
         cd, gd, hs, sd = enumerate_cases(ctx, dry_out)
-        run_cases(ctx, exe, sd, "server-death", batch=8)
+        # the server dies while the client is idle: every combination of transport, queue contents, reaping
+        # time and calls after the death (those whose first call is qb_ipcc_disconnect run first);
+        # "qb_ipcc_disconnect is the very next call" after a death before / during a call: all in the thorough
+        # tier, a seed-chosen part in the quick tier
+        idle_direct, idle_other = crashgen.idle_ops()
+        sd_direct = [(c + "-D", [o[0] + " D"]) for c, o in sd]
+        if ctx.quick():
+            n_all = len(sd_direct)
+            sd_direct = [c for c in sd_direct if ctx.rng.random() < 0.4]
+            ctx.cov["server_death_disconnect_next_cases_quick"] = "%d of %d" % (len(sd_direct), n_all)
+        ctx.cov["server_idle_death_cases"] = "%d with qb_ipcc_disconnect as the first call after the death, %d with another call first" % (
+            len(idle_direct), len(idle_other))
+        run_cases(ctx, exe, idle_direct + sd + idle_other + sd_direct, "server-death", batch=8)
         if ctx.violations:
             return
         run_cases(ctx, exe, hs, "handshake-prefix")
